@@ -33,10 +33,11 @@ Init == /\ phase = "in"
         /\ ratios \in SeqsUpTo(RatioSet, 0, MaxFill - 1)
         /\ x \in SeqsUpTo(Rows, 0, MaxTrace)
         /\ avail \in {AvailSeq[i] : i \in 1..Len(AvailSeq)}
-        /\ out = [st |-> "none", mix |-> <<>>]
+        /\ out = [st |-> "none", mix |-> <<>>, muw |-> <<>>]
 Eval == /\ phase = "in"
-        /\ out' = IF Rejected(x, NL, Variant) THEN [st |-> "invalid", mix |-> <<>>]
-                   ELSE [st |-> "ok", mix |-> Mix(ratios, x, NL, Variant)]
+        /\ out' = IF Rejected(x, NL, Variant) THEN [st |-> "invalid", mix |-> <<>>, muw |-> <<>>]
+                   ELSE LET m == Mix(ratios, x, NL, Variant)
+                        IN  [st |-> "ok", mix |-> m, muw |-> MuScalarWeights(m, NL, Variant)]
         /\ phase' = "done"
         /\ UNCHANGED <<ratios, x, avail>>
 Next == Eval
@@ -59,6 +60,10 @@ MuIsWeightedMean == Valid => \A l \in 1..NL :
     LET mu == Mu(M, Masses, l)
     IN  /\ RLe(RMinSeq(Masses), mu) /\ RLe(mu, RMaxSeq(Masses))
         /\ (NFill(ratios) = 1 /\ Len(x) = 0) => mu = Masses[1]
+\* every scalar route to the mean molecular weight reads the weighted sum of the SURFACE layer
+ScalarMuAtSurface == Valid =>
+    /\ out.muw = [g \in 1..Len(M) |-> M[g][1]]
+    /\ WeightedSum(out.muw, Masses) = Mu(M, Masses, 1)
 ActiveSplit ==
     LET a == ActiveIdx(Gases, avail)
         i == InactiveIdx(Gases, avail)
@@ -75,8 +80,16 @@ ExportPick == Export => avail = AvailSeq[SumNums + 1]
 Emit == (Export /\ Done) =>
     PrintT(<<"VEC", ToJson([ratios |-> ratios, x |-> x, nl |-> NL,
                             invalid |-> (out.st = "invalid"),
-                            mix |-> out.mix,
+                            mix |-> out.mix, muw |-> out.muw,
+                            single |-> (\E g \in 1..Len(x) : \E l \in 1..NL : RLt(ROne, x[g][l])),
                             gases |-> Gases, avail |-> SetToSeq(avail),
                             active |-> Names(Gases, ActiveIdx(Gases, avail)),
                             inactive |-> Names(Gases, InactiveIdx(Gases, avail))])>>)
+\* non-vacuity inside an export run (quick tier; the thorough tier also runs the RF_ configs): print the inputs on
+\* which a wrong design, evaluated with the same operators, contradicts the invariant
+Witness == (Export /\ Done /\ Len(ratios) = 0 /\ Len(x) = 1) =>
+    /\ IF Rejected(x, NL, "clip_traces") # ExceedsOne(x, NL)
+       THEN PrintT(<<"WITNESS", ToJson([variant |-> "clip_traces", inv |-> "InvalidIffExceedsOne"])>>) ELSE TRUE
+    /\ IF Valid /\ WeightedSum(MuScalarWeights(M, NL, "mu_layer_mean"), Masses) # Mu(M, Masses, 1)
+       THEN PrintT(<<"WITNESS", ToJson([variant |-> "mu_layer_mean", inv |-> "ScalarMuAtSurface"])>>) ELSE TRUE
 =============================================================================
